@@ -94,6 +94,21 @@ def strip(n):
     return n
 
 
+def untry(n):
+    """inner expression of `e?` (match Try::branch(e) {..}) or n itself"""
+    while isinstance(n, dict) and n.get("k") == "match" and n.get("src", "").startswith("TryDesugar"):
+        sc = n["scrut"]
+        if sc.get("k") == "call" and sc.get("args"):
+            n = sc["args"][0]
+        else:
+            break
+    return n
+
+
+def is_try(n):
+    return isinstance(n, dict) and n.get("k") == "match" and n.get("src", "").startswith("TryDesugar")
+
+
 BINP = {"||": 1, "&&": 2, "==": 3, "!=": 3, "<": 3, "<=": 3, ">": 3, ">=": 3, "|": 4, "^": 5, "&": 6, "<<": 7, ">>": 7,
         "+": 8, "-": 8, "*": 9, "/": 9, "%": 9}
 
@@ -155,7 +170,7 @@ def render(n, depth=0):
     if k == "assign":
         return "%s = %s" % (render(n["l"], d), render(n["r"], d))
     if k == "assignop":
-        return "%s %s= %s" % (render(n["l"], d), n["op"], render(n["r"], d))
+        return "%s %s %s" % (render(n["l"], d), n["op"], render(n["r"], d))
     if k == "if":
         s = "if %s {%s}" % (render(n["c"], d), render(n["t"], d))
         if "e" in n:
@@ -163,6 +178,8 @@ def render(n, depth=0):
         return s
     if k == "let":
         return "let %s = %s" % (render_pat(n["pat"]), render(n["init"], d))
+    if k == "match" and n.get("src", "").startswith("TryDesugar"):
+        return "%s?" % render(untry(n), d)
     if k == "match":
         return "match %s {%s}" % (render(n["scrut"], d), "; ".join(
             "%s => %s" % (render_pat(a["pat"]), render(a["body"], d)) for a in n["arms"]))
